@@ -149,15 +149,14 @@ def seed_matches_filter_full : Prop :=
     ss.all (fun kv => !kv.1.toList.contains '.' && !kv.1.startsWith "$" && isScalar kv.2) = true →
     (dkeys ss).Nodup → filterApplies (.doc ss) (discardOps (.doc ss)).1 = .ok true
 
-/-- It is false of the code (new finding `upsert-empty-key`): for the filter `{"": 2}` the seed is
-    `{"": 2}`, but the matcher reads the empty key as "the document itself", so the seed is not
-    matched.  On the real code `update_one({'': 2}, {'$set': {'e': 9}}, upsert=True)` inserts
-    `{'': 2, 'e': 9, …}`, `find({'': 2})` returns nothing and a second identical call inserts a
-    second document. -/
-theorem seed_matches_filter_full_fails : ¬ seed_matches_filter_full := by
-  intro h
-  have := h [("", .int 2)] (by decide +kernel) (by decide +kernel)
-  exact absurd this (by decide +kernel)
+/-- The former counterexample (`seed_matches_filter_full_fails`, finding `upsert-empty-key`: for the
+    filter `{"": 2}` the seed is `{"": 2}`, and the matcher read the empty key as "the document
+    itself") is gone from the Filter model: since the library repair "a filter looks the empty
+    field name up like any other field" the seed is matched.  [Minimal edit forced by the C01
+    follow-up of that repair; strengthening `seed_matches_filter_partial` to the full statement is
+    left to the follower of C13.] -/
+example : filterApplies (.doc [("", .int 2)]) (discardOps (.doc [("", .int 2)])).1 = .ok true := by
+  decide +kernel
 
 /-- **The seed satisfies its filter** (partial: keys non-empty).  For a filter of plain equality
     conditions with pairwise distinct keys, `expandDots` leaves the filter as it is, and the seed
